@@ -390,6 +390,8 @@ def run(ctx):
         nt = _extra.check_std_fds(ck, prog, config, 'C01-i')
         # ---- j  the reader notices the end of the data when it ends the last chunk
         _extra.check_end_of_data(ck, prog, config, 'C01-j')
+        # ---- k  unzck never opens its own input for writing
+        _extra.check_no_self_overwrite(ck, prog, config, 'C01-k')
         ck.min_instances('tool main() functions that open files', nt, 5)
         # ---- h  the zck tool's split-string scanner: two structural necessary conditions (the scanner as a whole is declined)
         from ..rules import guardlen
@@ -408,7 +410,7 @@ def run(ctx):
 CLAIM = {
     'technique': 'flush typestate with the chunk-end function inlined and constant arguments propagated, sentinel '
                  'consistency rule, layout table comparison, linear conservation per loop segment, write/index '
-                 'pairing, relational order facts, stale-cache dataflow, write-retry continuation (result symbols, bounded unrolling), guarded-length lint by Fourier-Motzkin elimination, deferred-flush and carried-counter-bound lints over the zck tool\'s scanner, std-descriptor reservation dominance in every tool main(), end-of-data typestate after every chunk end on the read side',
+                 'pairing, relational order facts, stale-cache dataflow, write-retry continuation (result symbols, bounded unrolling), guarded-length lint by Fourier-Motzkin elimination, deferred-flush and carried-counter-bound lints over the zck tool\'s scanner, std-descriptor reservation dominance in every tool main(), end-of-data typestate after every chunk end on the read side, output-name typestate of unzck (the derived name differs from the input before open(O_TRUNC))',
     'text': 'static analysis: decides necessary conditions C01-a..f - a successful close cannot leave a refused final '
             'chunk unwritten; the temp descriptor cannot take its sentinel value; writer and reader agree on the header '
             'layout; zck_write hands every byte of the buffer to the compressor exactly once; what goes to the temp '
